@@ -25,6 +25,7 @@ CONSTANTS
   ObjOf <- objA
   ActOf <- actA
   Raws <- rawA
-INVARIANTS TypeOK AtMostOneOutcome OwnResult ExecOnceIfOk ExecAtMostOnce PostAtMostOnce PostNoResponse OnlyCallAndPostExecute ErrorIsOwn
+  Deviations <- NoDev
+INVARIANTS TypeOK AtMostOneOutcome OwnResult ExecOnceIfOk ExecAtMostOnce PostAtMostOnce PostNoResponse FramesOwed OnlyCallAndPostExecute ErrorIsOwn
 PROPERTIES EveryCallAnswered
 CHECK_DEADLOCK FALSE
